@@ -342,7 +342,7 @@ int mod_deregister(m_mod_t **mod, bool from_user) {
              * Destroy context if it is not looping and
              * it has no more modules in it and is not a persistent ctx
              */
-            if (c->state == M_CTX_IDLE && m_map_len(c->modules) == 0 && !(c->flags & M_CTX_PERSIST) && !c->replacing && m_ctx() == c) { // not already released by a nested deregistration
+            if (c->state == M_CTX_IDLE && m_map_len(c->modules) == 0 && !(c->flags & M_CTX_PERSIST) && c->keep == 0 && m_ctx() == c) { // not already released by a nested deregistration
                 ret = m_ctx_deregister();
             }
         }
@@ -467,9 +467,9 @@ _public_ int m_mod_register(const char *name, m_mod_t **mod_ref, const m_mod_hoo
          * a non persistent context must not be released for losing its only module meanwhile.
          */
         M_MEM_LOCK(c, {
-            c->replacing = true;
+            c->keep++;
             ret = mod_deregister(&old_mod, false);
-            c->replacing = false;
+            c->keep--;
         });
         if (ret != 0) {
             return ret;
